@@ -42,7 +42,7 @@ class Res:
     def nt(self, *parts):
         self.nontrivial.add("|".join(str(p) for p in parts))
 
-    def violate(self, mech, detail, **witness):
+    def violate(self, mech, detail, /, **witness):
         """mech: mechanism key (stable, no random values); detail: human text; witness: JSON-able."""
         self.violations.append({"mech": mech, "detail": detail, "witness": witness})
 
